@@ -48,6 +48,99 @@ def rule_m1(ctx, py):
     ctx.floor(R, 9)
 
 
+def rule_accept(ctx, py):
+    """C16.ACCEPT -- the documented rules accept a map that drops cells of any environments: the 'no group mixes environments'
+    rejection is reached only for a real group.  Every raise of the validator whose condition involves the cells' environments
+    sits on a path where the group index under test is known not to be -1 (tested, or produced by a range())."""
+    R = "C16.ACCEPT"
+    f = py.fn("coarsegrain.check_index_map_validity")
+    m = MAPS["coarsegrain.check_index_map_validity"]
+    # names that carry environment data
+    envn = set()
+    for _ in range(4):
+        for st in ast.walk(f):
+            if isinstance(st, ast.Assign) and len(st.targets) == 1 and isinstance(st.targets[0], ast.Name):
+                t = pyfe.src(st.value)
+                if "get_cell_env_array" in t or "cell_env" in t or any(pya.mentions(t, e_) for e_ in envn):
+                    envn.add(st.targets[0].id)
+    ctx.need(envn, R, "check_index_map_validity: the environment array is not read")
+    # names that carry the map (the parameter and array copies of it)
+    mapn = {m}
+    for _ in range(3):
+        for st in ast.walk(f):
+            if isinstance(st, ast.Assign) and len(st.targets) == 1 and isinstance(st.targets[0], ast.Name) and \
+                    any(pya.mentions(pyfe.src(st.value), k) for k in mapn) and st.targets[0].id not in envn:
+                mapn.add(st.targets[0].id)
+    found = []
+
+    # raises are IR leaves: visit them through their enclosing conditions
+    def walk(stmts, facts, loops):
+        for st in stmts:
+            if isinstance(st, ast.If):
+                walk(st.body, facts | set(pya.atoms(st.test, True)), loops)
+                walk(st.orelse, facts | set(pya.atoms(st.test, False)), loops)
+            elif isinstance(st, (ast.For, ast.While)):
+                walk(st.body, facts, loops + [st])
+            elif isinstance(st, ast.Raise):
+                found.append((st, facts, loops))
+    walk(f.body, set(), [])
+    # flow facts (early `continue` on -1) come from the path engine
+    flow = {}
+
+    def on_cond(node, cfg):
+        flow[id(node)] = cfg
+    pya.must_facts(f, on_cond=on_cond)
+    n = 0
+    for st, facts, loops in found:
+        cond_txt = " ; ".join(a for a, _ in facts if isinstance(a, str))
+        if not any(pya.mentions(cond_txt, e_) for e_ in envn):
+            continue
+        n += 1
+        # the innermost enclosing If of the raise carries the flow facts valid at its test
+        p_ = pyfe.parent(st)
+        cfg = set()
+        while p_ is not None and p_ is not f:
+            if isinstance(p_, ast.If) and id(p_.test) in flow:
+                cfg |= set(flow[id(p_.test)])
+            p_ = pyfe.parent(p_)
+        allf = set(facts) | cfg
+        okk = False
+        import re
+
+        def is_group(t):
+            # a loop variable, or an element of the map
+            t = t.strip()
+            return t in _loopvars(loops) or any(re.match(r"^%s\[.+\]$" % re.escape(k), t) for k in mapn)
+        for a, pol in allf:
+            if not isinstance(a, str):
+                continue
+            if pol is False and a.endswith(" == -1") and is_group(a[:-len(" == -1")]):
+                okk = True
+            if pol is False and a.endswith(" < 0") and is_group(a[:-len(" < 0")]):
+                okk = True
+            if pol is True and a.startswith("0 <= ") and is_group(a[len("0 <= "):]):
+                okk = True
+        # or: the group variable is produced by a range(...) (never negative)
+        for lp in loops:
+            if isinstance(lp, ast.For) and isinstance(lp.iter, ast.Call) and pyfe.call_name(lp.iter) == "range" and \
+                    isinstance(lp.target, ast.Name) and not any(pya.mentions(pyfe.src(lp.iter), "size") for _ in (0,)) and \
+                    pya.mentions(cond_txt, lp.target.id) and "max(" in pyfe.src(lp.iter):
+                okk = True
+        ctx.check(okk, R, st, f._qual, "raise under %s" % cond_txt[:70], "reached only for a group index other than -1",
+                  "the environment-mixing rejection is reached without excluding -1: a map that drops cells of two different "
+                  "environments is valid by the documented rules and is refused")
+    ctx.need(n >= 1, R, "check_index_map_validity: no environment-related rejection found")
+    ctx.floor(R, 1)
+
+
+def _loopvars(loops):
+    out = set()
+    for lp in loops:
+        if isinstance(lp, ast.For):
+            out |= {x.id for x in ast.walk(lp.target) if isinstance(x, ast.Name)}
+    return out
+
+
 def rule_valid_first(ctx, py):
     R = "C16.VALID-FIRST"
     f = py.fn("coarsegrain.coarsegrain_grid")
@@ -494,6 +587,7 @@ def run(ctx):
     rule_units(ctx, py)
     rule_m1(ctx, py)
     rule_valid_first(ctx, py)
+    rule_accept(ctx, py)
     rule_kind(ctx, py)
     rule_clamp(ctx, py)
     rule_edge(ctx, py)
